@@ -29,6 +29,13 @@ def gen(ctx):
             yield line(cfg_str(ver=ver, verify=verify), [connect(user=None, **fail), login, "noop", "disc:1", "isconn"])
             yield line(cfg_str(ver=ver, verify=verify), [connect(**fail), "noop", "pwd", "disc:0", connect(), noop])
             yield line(cfg_str(ver=ver, verify=verify), [connect(user=None, **fail), "isconn", login, "disc:0", "isconn"])
+        # an impostor on the data port: it declines the offered session and presents a certificate of an unknown CA
+        for resume in (1, 0):
+            for mode in "pa":
+                for rfc in (0, 1):
+                    c = cfg_str(mode=mode, rfc=rfc, resume=resume, ver=ver, verify="peer")
+                    yield line(c, [connect(), get(mode, rfc, end="cb"), "disc:0", connect(), lst(mode, rfc, end="cb"), "disc:0", connect(),
+                                   "put:STOR:%s:g3.5000@%s/%s" % (H(b"SECRETPATH04.bin"), setup(mode, rfc), ",".join([R(b"150 go"), R(b"226 done"), "Drecv:-:cb"])), "disc:0"])
         for pbsz, prot in ((500, 200), (200, 534), (200, 500)):
             yield line(cfg_str(ver=ver), [connect(pbsz=pbsz, prot=prot), noop])
         for login in ((530, 0), (331, 530), (230, 0)):
@@ -41,7 +48,7 @@ def gen(ctx):
             yield line(cfg_str(ver=ver), [connect(), get("p", 1, payload="g3.%d" % k, end="t"), "disc:0"])
             yield line(cfg_str(ver=ver), [connect(), lst("p", 1, end="t"), "disc:0"])
         yield line(cfg_str(ver=ver), [connect(), get("p", 1, main=550), noop])
-    ctx["scopes"].append("TLS 1.2/1.3 x resumption on/off x four methods x both types (download, upload, listing); refusal of AUTH TLS with 7 codes; garbage instead of ServerHello; unknown CA with verify_peer / verify_none; PBSZ/PROT refused; login refused; truncation after 0,1,100,8192,20000 bytes")
+    ctx["scopes"].append("TLS 1.2/1.3 x resumption on/off x four methods x both types (download, upload, listing); refusal of AUTH TLS with 7 codes; garbage instead of ServerHello; unknown CA with verify_peer / verify_none; PBSZ/PROT refused; a data peer with a certificate of an unknown CA (resumption on / off x four methods x download, listing, upload); login refused; truncation after 0,1,100,8192,20000 bytes")
     n = 20 if tier == "quick" else 1500
     for _ in range(n):
         ver = rng.choice([12, 13]); mode = rng.choice("pa"); rfc = rng.choice([0, 1])
